@@ -117,17 +117,24 @@ class InstTap:
                 self.sim._close_event()
                 self.sim.open_tx = False
             self.sim._between()
+        pair = getattr(self.sim, 'pair', None)
+        if pair is not None:
+            pair.gate(self.sim)                  # 'pre': somebody else may use the dongle first
+            pair.current = self.sim
         self.sim.from_A = True
         try:
             r = self.inst.send_packet(data)
         finally:
             self.sim.from_A = False
-        self.sim.on_resp(r, is_neg)
+        self.sim.on_resp(r, is_neg)              # what the dongle answered to THIS transfer, at hand-over
+        if pair is not None:
+            pair.gate(self.sim)                  # 'post': holds its answer, has not looked at it yet
         return r
 
 
 class SharedSim(base.Sim):
     URI = 'radio://0/80/2M/E7E7E7E701'
+    pair = None
 
     def _make_radio(self, crz):
         rd = self.rd
@@ -277,3 +284,117 @@ def run_commands(cmds, air=()):
     finally:
         undo()
     return list(dev.log), seen, results, sends
+
+
+# ------------------------------------------------------------------ two full links on one dongle, gated
+
+URI_A = 'radio://0/80/2M/E7E7E7E701'
+URI_B = 'radio://0/40/1M/E7E7E7E702'
+
+
+class LinkSim(SharedSim):
+    """one of two complete RadioDriver links (own script, own Crazyflie) sharing the dongle of a Pair"""
+
+    def __init__(self, case, pair, name):
+        self.pair, self.name = pair, name
+        self.URI = URI_A if name == 'A' else URI_B
+        super().__init__(case)
+
+    def _make_radio(self, crz):
+        self.dev = self.pair.dev
+        self.air = self.pair.air
+        self.from_A = False
+        self.scans, self.b_sent, self.instB = [], [], None
+        self._undo = lambda: None
+        self.tap = InstTap(self.rd.RadioManager.open(0), self)
+
+    def _cleanup(self):
+        pass
+
+
+class Pair:
+    """Both links run their real radio loops in their own threads; a baton lets exactly one of them move, from one
+    gate to the next.  Gates (in InstTap.send_packet): 'pre' = about to hand a transfer to the shared-radio thread,
+    'post' = holds the answer it got from its result queue but has not looked at it yet.  schedule: string over
+    'a'/'b' = who moves next (then alternating until both scripts are done).  Deterministic."""
+
+    def __init__(self, case):
+        import threading
+        import cflib.crtp.radiodriver as rd
+        self.rd, self.case = rd, case
+        self.current = None
+        self.air = {f: base.Peer() for f in FOREIGN}
+        self.dev = DongleDev(self)
+        self.arrived = threading.Semaphore(0)
+        self.hung = False
+        self._orig_N = rd._nr_of_retries
+        self._undo = _install(self.dev)
+        self.sims = {}
+        try:
+            for name, setting in (('A', SET_A), ('B', SET_B)):
+                sim = LinkSim(dict(case[name], N=case['N']), self, name)
+                sim._saved_N = case['N']               # the retry budget is a module global shared by both links
+                sim.go = threading.Semaphore(0)
+                sim.done = False
+                sim.crashed = None
+                self.sims[name] = sim
+                self.air[setting] = sim.peer
+        except Exception:
+            self._end()
+            raise
+
+    # the dongle's owner: whoever's transfer the shared thread is serving
+    def on_air(self, data):
+        return self.current.on_write(data)
+
+    def on_read(self):
+        return self.current.on_read()
+
+    def gate(self, sim):
+        self.arrived.release()
+        sim.go.acquire()
+
+    def _link_main(self, sim):
+        try:
+            sim.go.acquire()
+            sim.run()
+        except BaseException:
+            import traceback
+            sim.crashed = traceback.format_exc()[-800:]
+        finally:
+            sim.done = True
+            self.arrived.release()
+
+    def _end(self):
+        self._undo()
+        self.rd._nr_of_retries = self._orig_N
+
+    def run(self):
+        import threading
+        try:
+            ths = {n: threading.Thread(target=self._link_main, args=(s,), daemon=True) for n, s in self.sims.items()}
+            for t in ths.values():
+                t.start()
+            sched = [c.upper() for c in self.case.get('schedule', '')]
+            k = 0
+            steps = 0
+            while not all(s.done for s in self.sims.values()):
+                if sched:
+                    n = sched.pop(0)
+                else:
+                    n = 'AB'[k % 2]
+                    k += 1
+                sim = self.sims[n]
+                if sim.done:
+                    continue
+                sim.go.release()
+                steps += 1
+                if not self.arrived.acquire(timeout=20) or steps > 200000:
+                    self.hung = True
+                    for s in self.sims.values():
+                        s.thread._sp = True
+                        s.go.release()
+                    break
+        finally:
+            self._end()
+        return self
